@@ -98,7 +98,25 @@ OBLIGATIONS.append(('frame_redelegate_proxy', frame('redelegate_proxy',
                                                    lambda W: W.registry)))
 
 
+def _backed(op):
+    """what keeps a rate from falling at the *next* synchronisation: everything booked by a bond is also delegated (two registered
+    validators in any order), otherwise the shortfall is written off as a phantom slash. World, claims and replay of C02."""
+    def ob(ctx):
+        from checks.c02 import mk as mk2
+        return mk2(op, 2, 1)(ctx)
+    return ob
+
+
+for _op in ('bond', 'bond_stsei', 'bond_rewards'):
+    OBLIGATIONS.append(('backed_%s_v2' % _op, _backed(_op)))
+
+
 def replay_any(v, run_scenario):
+    key0 = v.get('key') or ':'
+    parts0 = key0.split(':')
+    if len(parts0) > 1 and parts0[1] in ('books', 'full', 'bank', 'registered', 'nonzero', 'denom', 'holding', 'exact', 'nodelegate', 'noundelegate', 'total'):
+        from checks.c02 import replay_any as r2
+        return r2(v, run_scenario)
     m = v['model']
     key = v.get('key') or ':'
     if key == 'zero_pool':
